@@ -200,6 +200,14 @@ class Ref:
 
     def request(self, idv, ln, data):
         requester, dst = idv & 255, (idv >> 8) & 255
+        if ((idv >> 16) & 0xff) == 0xEE and ((idv >> 24) & 3) == 0 and ln == 8 and self.mode in (1, 2):
+            # an address claim for one of our addresses from a HIGHER NAME (the only kind the cases of this check contain): the device
+            # defends its address with its own claim and keeps it - no new claim window, requests go on being answered
+            nm = int.from_bytes(bytes(data[:8]), 'little')
+            for k in range(self.ndev):
+                if self.src(k) == requester and requester <= 251 and nm > self.names[k]:
+                    self.send(k, 60928, 255, le(self.names[k], 8), False)
+            return
         if ((idv >> 16) & 0xff) != 0xEA or ((idv >> 24) & 3) != 0:
             return                              # not an ISO request
         if self.mode not in (1, 2):
@@ -660,6 +668,25 @@ def gen(seed, tier):
         line, ndev, src0, mode = cfg_line(r, ndev=1, mode=1, q=40, lists=False)
         p = r.choice([126996, 60928, 126998, 65300, 126464])
         cases.append(line + ' | ' + ' ; '.join(backlog(r, k, [req(r, 50, r.choice([src0, 255]), p)]) + ['T 300', 'P']))
+    # 9. a contender with a higher NAME claims our address: the device defends and keeps it, so a request right afterwards is answered
+    #    like any other (winning a conflict opens no claim window; seed C08-19)
+    from nodegen import claim
+    for _ in range(4 if not thorough else 60):
+        line, ndev, src0, mode = cfg_line(r, ndev=r.choice([1, 2]), mode=r.choice([1, 2]), q=40, lists=False)
+        k = r.randrange(ndev)
+        own = (src0 + k) if src0 + ndev - 1 <= 251 else None
+        if own is None:
+            continue
+        p = r.choice([126996, 65300, 126998, 126464, 60928])
+        cases.append(line + ' | ' + ' ; '.join([claim(own, (1 << 64) - 1 - r.randrange(3)), 'P', 'T %d' % r.choice([0, 10, 100, 249]), req(r, 50, r.choice([own, 255]), p), 'P', 'T 300', 'P']))
+    # 10. send buffers above 256 entries (7..9 devices x 40): the answers of every device to a broadcast request queued under a blocked driver,
+    #     twice, so that the ring indices pass 255 with the read index away from 0 (seed C08-20)
+    for nd in ([9] if not thorough else [7, 8, 9, 9]):
+        line, ndev, src0, mode = cfg_line(r, ndev=nd, mode=1, q=40, src0=r.choice([20, 100]), lists=False)
+        ops = []
+        for _round in range(2):
+            ops += ['A ' + '0' * 600, req(r, 50, 255, 126996), 'P', 'T 100', 'P', 'A', 'P', 'T 400', 'P', 'T 2500', 'P', 'T 2500', 'P']
+        cases.append(line + ' | ' + ' ; '.join(ops))
     for nreq in ([25] if not thorough else [21, 22, 25, 41, 45]):
         line, ndev, src0, mode = cfg_line(r, ndev=1, mode=1, q=40, lists=False)
         cases.append(line + ' | ' + ' ; '.join([req(r, 50 + j, src0, 65300 + j) for j in range(nreq)] + ['P', 'T 5', 'P', 'T 5', 'P', 'T 300', 'P']))
